@@ -179,3 +179,10 @@ def x12(cx: Cx, ob: Ob) -> None:
     from ..rules import package_lints
 
     package_lints(cx, ob, {'api.py'})
+
+
+@obligation("C03-X14", "the default standardize_identifier hook is the identity (shared with C02-D8): the CURIE-side operations accept and keep exactly the identifiers the URI-side operations produce", floor=1)
+def x14(cx: Cx, ob: Ob) -> None:
+    from .c02 import check_identifier_hook
+
+    check_identifier_hook(cx, ob)
